@@ -26,6 +26,8 @@ instance : Transc Float where
   sin  := Float.sin
   atan := Float.atan
 
+instance : NatCast Float := ⟨Float.ofNat⟩
+
 /-- sum of `f 0 … f (n-1)` in the order a Python `for k in range(n)` loop accumulates it. -/
 def sumN {α : Type} [Add α] [OfNat α 0] (n : Nat) (f : Nat → α) : α :=
   (List.range n).foldl (fun acc k => acc + f k) 0
